@@ -111,6 +111,12 @@ class Entering(object):
 _SCP_BOOMS = {}
 
 
+def _app_id(t):
+    """An application id: the whole byte is legal, its ends drawn often."""
+    return 1 + t.draw(250) if t.draw(4) else \
+        [255, 254, 253, 128, 127, 1, 16][t.draw(7)]
+
+
 class Boom(Exception):
     def __init__(self, catch_depth):
         Exception.__init__(self, "injected body failure")
@@ -474,7 +480,7 @@ class CtxEngine(object):
                     how[nm] = 1
         target = chips[t.draw(len(chips))]
         vals = {"x": target[0], "y": target[1], "p": 1 + t.draw(16),
-                "app_id": 1 + t.draw(250), "link": self.Links(t.draw(6))}
+                "app_id": _app_id(t), "link": self.Links(t.draw(6))}
         pos_args = []
         kw_args = {}
         for nm in ctx_names:
@@ -865,7 +871,7 @@ class CtxEngine(object):
             if t.draw(3) == 0:
                 args["p"] = 1 + t.draw(16)
             if t.draw(3) == 0:
-                args["app_id"] = 1 + t.draw(250)
+                args["app_id"] = _app_id(t)
         else:
             coords = sorted(self.bmp_hosts)
             tgt = coords[t.draw(len(coords))]
@@ -937,7 +943,7 @@ class CtxEngine(object):
             w.probe("application_block")
             explicit = bool(t.draw(3))
             found, ctx_app = self.ctx_value(stack["mc"], "app_id")
-            app = 1 + t.draw(250) if explicit or not found else ctx_app
+            app = _app_id(t) if explicit or not found else ctx_app
             args = {"app_id": app}
             w.ops.append("%swith mc.application(%s):" % (
                 "  " * depth, app if explicit or not found else ""))
